@@ -1591,6 +1591,8 @@ namespace bloch::runtime {
             std::cerr << "[ctor] " << cls->name << " done" << std::endl;
         }
 
+        // 'return this;' in a constructor body must not leave a reference in the return slot.
+        m_returnValue = {};
         endScope();
         m_currentClassCtx = prevClass;
         m_inStaticContext = prevStatic;
@@ -1635,6 +1637,9 @@ namespace bloch::runtime {
             }
         }
         Value ret = m_returnValue;
+        // Do not keep the returned value alive in the return slot: a stale reference there delays
+        // the destructor of an object whose last variable has already been destroyed.
+        m_returnValue = {};
         endScope();
         m_hasReturn = prevReturn;
         m_currentClassCtx = prevClass;
@@ -1662,6 +1667,9 @@ namespace bloch::runtime {
             }
         }
         Value ret = m_returnValue;
+        // Do not keep the returned value alive in the return slot: a stale reference there delays
+        // the destructor of an object whose last variable has already been destroyed.
+        m_returnValue = {};
         endScope();
         m_hasReturn = prevReturn;
         return ret;
